@@ -116,7 +116,7 @@ class AveragerCheck(SubCheck):
                 for s in c._shards:
                     s._sql
 
-        calls, sched = run_scheduled(env, case['progs'], case['schedule'], open_clients, avg_do, 'C20', warm=warm)
+        calls, sched = run_scheduled(env, case['progs'], case['schedule'], open_clients, avg_do, 'C20', warm=warm, final_ops=[('get',), ('pop',), ('get',)])
         if sched.limit_hit:
             return {'nontrivial': False, 'classes': ['step-limit']}
         mark_interleaved(calls, sched.trace)
